@@ -13,9 +13,12 @@ pub type Pok<CS> = PoKSignature<CL03<CS>>;
 
 /// honest signature + proof for hidden set u
 pub fn honest<CS: Suite>(w: &World<CS>, n: usize, m: &[Integer], u: &[usize]) -> O<(Signature<CL03<CS>>, Pok<CS>)>
+where CL03<CS>: Scheme<PubKey = CL03PublicKey, PrivKey = CL03SecretKey>, CS::HashAlg: sha2::Digest { honest_with_key::<CS>(w, n, m, u, 0) }
+/// `extra`: the verifier's commitment key has that many more generators than the credential has attributes
+pub fn honest_with_key<CS: Suite>(w: &World<CS>, n: usize, m: &[Integer], u: &[usize], extra: usize) -> O<(Signature<CL03<CS>>, Pok<CS>)>
 where CL03<CS>: Scheme<PubKey = CL03PublicKey, PrivKey = CL03SecretKey>, CS::HashAlg: sha2::Digest {
     let bases = Bases(w.bases.0[..n].to_vec());
-    let cpk = CL03CommitmentPublicKey { N: w.cpk.N.clone(), h: w.cpk.h.clone(), g_bases: w.cpk.g_bases[..n].to_vec() };
+    let cpk = CL03CommitmentPublicKey { N: w.cpk.N.clone(), h: w.cpk.h.clone(), g_bases: w.cpk.g_bases[..(n + extra).min(w.cpk.g_bases.len())].to_vec() };
     let mv = msgs(m);
     let u = u.to_vec();
     mccore::guard_val(move || {
